@@ -913,6 +913,19 @@ def core_cases() -> list[dict[str, Any]]:
         cases.append({"kind": "grammar", "grammar": g, "seed": 0})
     for a in ("PYDOE_LHS", "OT_HALTON", "MorrisDOE"):
         cases.append({"kind": "serializable", "what": "DOELibrary", "algo": a, "moment": "executed"})
+    # non-default constructor options (`Class[option=value]`, see c20_catalog.class_variants): besides the three
+    # moments above, linearized by complex step (the configuration `dtype=complex128` exists for it), the mode set
+    # through `set_jacobian_approximation` or through the `linearization_mode` property, saved with the helpers
+    for name in sorted(recipes):
+        if CAT.is_variant(name):
+            cases.append({"kind": "discipline", "recipe": name, "moment": "executed", "seed": 12, "serializer": "gemseo", "cache": "none",
+                          "edits": [["jac-approx", 2, "1/1073741824", 0]]})
+            cases.append({"kind": "discipline", "recipe": name, "moment": "fresh", "seed": 13, "blind": True, "n_post": 3,
+                          "edits": [["lin-mode", "complex_step"]]})
+    # the save/load helpers used more than once on the same file
+    from harness import c20_reload as RL
+
+    cases += RL.core_cases()
     return cases
 
 
@@ -942,6 +955,10 @@ def gen_edits(rng: common.Rng, cache: str) -> list[list[Any]]:
 
 
 def gen_case(rng: common.Rng) -> dict[str, Any]:
+    if rng.chance(0.15):
+        from harness import c20_reload as RL
+
+        return RL.gen_case(rng)  # the same file loaded two or three times, earlier loads used in between
     c = _gen_case(rng)
     if rng.chance(0.5) and c["kind"] in ("discipline", "grammar", "cache", "problem", "scenario", "design_space"):
         c["blind"] = True  # serialized before the harness observes anything (see c20_diff._view_and_serialize)
@@ -1028,6 +1045,10 @@ def run_case(case: dict[str, Any], tmp: Path):
         return D.run_discipline_case(case, tmp)
     if case["kind"] == "xproc":
         return XP.run_job(case, tmp)
+    if case["kind"] == "reload":
+        from harness import c20_reload as RL
+
+        return RL.run_reload_case(case, tmp)
     return D2.RUNNERS[case["kind"]](case, tmp)
 
 
@@ -1045,10 +1066,15 @@ _SIMPLER = [
     ("n_entries", 0),
     ("edits", None),
     ("blind", None),
+    ("rewrite", None),
+    ("loads", 2),
+    ("helper", "from_pickle"),
 ]
 
 
 def subject_of(case: dict[str, Any], out=None) -> str:
+    if case["kind"] == "reload":
+        return subject_of({**case, "kind": case["what"]}, out)
     if case["kind"] == "discipline":
         from harness import c20_catalog as CAT
 
@@ -1127,6 +1153,18 @@ def process_outcome(res: Result, case: dict[str, Any], out, tmp: Path, shrink: b
     for dim in ("grammar", "cache", "moment", "serializer"):
         if dim in case:
             res.count(f"{dim}={case[dim]}")
+    if case["kind"] == "reload":
+        res.count(f"reload:what={case['what']}")
+        res.count(f"reload:loads={out.info.get('loads')}")
+        res.count(f"reload:helper={out.info.get('helper')}")
+        res.count("reload:file-" + ("written-again-then-loaded" if case.get("rewrite") else "never-rewritten"))
+    if case["kind"] in ("discipline", "reload") and "=" in str(case.get("recipe", "")):
+        res.count("discipline:non-default-constructor-option")
+        res.count("discipline:option=" + case["recipe"].split("[", 1)[1].rstrip("]").split("=")[0].split(",")[-1])
+        if out.info.get("complex_inputs"):
+            res.count("discipline:complex-configured:executed-with-complex-inputs")
+        if out.info.get("complex_step"):
+            res.count("discipline:complex-configured:linearized-by-complex-step")
     if "blind" in out.info:
         res.count(f"{case['kind']}:" + ("serialized-before-any-observation" if out.info["blind"] else "viewed-then-serialized"))
     if case["kind"] in ("discipline", "cache", "grammar"):
@@ -1448,6 +1486,10 @@ def run(ctx) -> Result:
                 check_probe_cases(res, [c], True)
             elif c.get("kind") in ("jg", "h5", "jgl", "h5l"):
                 check_instance_cases(res, [c], tmp)
+            elif c.get("kind") == "ps":
+                from harness import c20_reload as RL
+
+                RL.check_sessions(res, [c], tmp)
             else:
                 process_outcome(res, c, run_case(c, tmp), tmp, shrink=False)
             res.count("corpus")
@@ -1458,6 +1500,12 @@ def run(ctx) -> Result:
         check_probe_cases(res, [gen_probe_case(rng, True) for _ in range(n_probe)], True)
         check_probe_cases(res, [gen_probe_case(rng, False) for _ in range(n_probe // 4)], False)
         check_instances(res, rng, 60 if ctx.thorough else 24, tmp)
+
+        # ---- the save/load helpers used more than once: sessions on the bare protocol vs the model (Proc)
+        from harness import c20_reload as RL
+
+        ps_rng = common.make_rng(ctx.seed, "c20-ps")
+        RL.check_sessions(res, [RL.gen_ps_case(ps_rng) for _ in range(400 if ctx.thorough else 100)], tmp)
 
         # ---- real objects vs table-driven model
         check_real_objects(res, collect_real_objects(tmp, rng, not ctx.thorough))
@@ -1600,6 +1648,17 @@ def replay(path: str) -> int:
             bad = probe_oracle(case, obs)
             for k, w in bad:
                 print("ORACLE FAILS:", k, w)
+            return 1 if bad else 0
+        if case.get("kind") == "ps":
+            from harness import c20_reload as RL
+
+            line = RL.ps_line(case)
+            impl, bad, _ = RL.ps_run(case, tmp)
+            print("line          :", line)
+            print("implementation:", impl)
+            print("model         :", common.run_lean_driver(PID, [line])[0])
+            for key, what in bad:
+                print("ORACLE FAILS:", key, "|", what)
             return 1 if bad else 0
         if case.get("kind") in ("jg", "h5", "jgl", "h5l"):
             line = instance_line(case)
